@@ -10,6 +10,7 @@ import (
 	"runtime/debug"
 	"strings"
 	"time"
+	"unicode/utf8"
 
 	mail "github.com/wneessen/go-mail"
 
@@ -228,8 +229,13 @@ func c10FromBytes(raw []byte) (c10Model, []string) {
 			continue
 		}
 		dmain, dps, _ := mimeread.ParseParamHeader(disp)
-		fn, _ := mimeread.GetParam(dps, "filename")
-		fn, _ = mimeread.DecodeWords(fn)
+		fnRaw, _ := mimeread.GetParam(dps, "filename")
+		fn, _ := mimeread.DecodeWords(fnRaw)
+		// a reader that honours the charset label of the encoded-words has to arrive at the same name: a label
+		// that contradicts the octets (UTF-8 octets under us-ascii) makes the name unreadable
+		if byLabel, labels := mimeread.DecodeWordsByLabel(fnRaw); len(labels) > 0 && byLabel != fn && utf8.ValidString(fn) {
+			probs = append(probs, fmt.Sprintf("file-name-charset-label: the file name %q is written under the charset label(s) %v, a reader honouring them gets %q", fn, labels, byLabel))
+		}
 		kind := "attach"
 		if strings.EqualFold(dmain, "inline") {
 			kind = "embed"
@@ -410,7 +416,7 @@ func runC10Case(r *ev.Run, c c10Case) {
 
 func runC10(r *ev.Run, rep *ev.ReplayDoc) ev.Summary {
 	sum := ev.Summary{
-		Rule: "seeded messages within the parser's feature set (UTF-8 text/plain and text/html bodies and alternatives, 0-2 embeds, 0-2 attachments, QP/base64/8bit/7bit, subjects and display names needing RFC 2047, file names over printable Unicode incl. blanks, ';' and '=') are rendered, parsed with EMLToMsgFromString, and rendered again. Model M0 from the spec, M1 from the parsed Msg's getters, M2 from the re-rendered bytes via the harness reader; M1 == M0 and M2 == M0 with nothing added, re-rendered message without duplicated singleton fields or structural problems. non-trivial = >=2 leaves; distinct by (shape, subject)",
+		Rule: "seeded messages within the parser's feature set (UTF-8 text/plain and text/html bodies and alternatives, 0-2 embeds, 0-2 attachments, QP/base64/8bit/7bit, subjects and display names needing RFC 2047, file names over printable Unicode incl. blanks, ';' and '=') are rendered, parsed with EMLToMsgFromString, and rendered again. Model M0 from the spec, M1 from the parsed Msg's getters, M2 from the re-rendered bytes via the harness reader; M1 == M0 and M2 == M0 with nothing added, re-rendered message without duplicated singleton fields, structural problems or file names whose charset label contradicts their octets. non-trivial = >=2 leaves; distinct by (shape, subject)",
 		Assumptions: []string{
 			"a case is only judged if the harness reader reads M0 back from the first rendering (C01's guarantee); header text compares after RFC 2047 decoding and blank-run collapsing; dates compare as instants",
 		},
